@@ -107,7 +107,8 @@ def independence_probe(rep: Report) -> List[List[int]]:
 
 def run(rep: Report, tier: str) -> None:
     rng = random.Random(common.seed() * 104729 + 17)
-    l2(rep, tier, "stoch")
+    # all draws are enumerated in every state: host (3,10) would need ~4e9 algorithm evaluations, (3,8) is the widest that finishes
+    l2(rep, tier, "stoch", hosts_thorough=["4_6", "4_8", "3_8"])
     quick = tier == "quick"
     all_events: List[List[int]] = []
     evals = 0
